@@ -297,9 +297,19 @@ def rule_roles_glr(rep):
         f = repo.func("parglare.glr.GLRParser._do_shifts")
         gs = [c for c in walk_no_nested(f.node) if isinstance(c, ast.Call) and is_name(c.func, "GSSNode")]
         ps = [c for c in walk_no_nested(f.node) if isinstance(c, ast.Call) and is_name(c.func, "Parent")]
-        r.need(len(gs) == 1 and len(ps) == 1, "_do_shifts: GSSNode / Parent construction not found")
+        r.need(len(gs) == 1 and len(ps) >= 1, "_do_shifts: GSSNode / Parent construction not found")
         LEN = ("head.position + len(head.token_ahead)", "head.position + head.token_ahead.length",
                "head.token_ahead.end_position")
+        clones = [c for c in walk_no_nested(f.node) if isinstance(c, ast.Call) and call_name(c) == "clone_with_root"]
+        r.check(
+            not clones,
+            "every shift link is built from the shifting head's own token",
+            "GLR shift link:cloned",
+            "_do_shifts connects a head to an already shifted head by cloning one of that head's links: the clone "
+            "carries the token and start position of *another* head (with lexical ambiguity two heads reach the "
+            "same state with different tokens ending at the same position: the tree shows the wrong token)",
+            node=clones[0] if clones else None,
+        )
         env = _site_env(f, gs[0], keep=("head", "to_state"))
         got = {k: _role(env, e) for k, e in _args(gs[0], gparams).items()}
         _check_roles(r, "GLR shifted head", gs[0], got, {
@@ -307,12 +317,13 @@ def rule_roles_glr(rep):
             "layout_content": ("head.layout_content_ahead",),
             "token_ahead": (None,), "layout_content_ahead": (None,),
         })
-        env = _site_env(f, ps[0], keep=("head", "shifted_head", "to_state"))
-        got = {k: _role(env, e) for k, e in _args(ps[0], pparams).items()}
-        _check_roles(r, "GLR shift link", ps[0], got, {
-            "root": ("head",), "start_position": ("head.position",), "end_position": LEN,
-            "token": ("head.token_ahead",),
-        })
+        for pc in ps:
+            env = _site_env(f, pc, keep=("head", "shifted_head", "to_state"))
+            got = {k: _role(env, e) for k, e in _args(pc, pparams).items()}
+            _check_roles(r, "GLR shift link", pc, got, {
+                "root": ("head",), "start_position": ("head.position",), "end_position": LEN,
+                "token": ("head.token_ahead",),
+            })
         # ---- _reduce
         f = repo.func("parglare.glr.GLRParser._reduce")
         gs = [c for c in walk_no_nested(f.node) if isinstance(c, ast.Call) and is_name(c.func, "GSSNode")]
